@@ -339,6 +339,8 @@ class Recorder:
         def probe(d):
             rec.loop_iters += 1
             rec.ev.append(["probe", dict(d), rec.snap(b)])
+            if d.get("is_finished"):
+                rec.phase = "final"
             if rec.loop_iters > rec.max_loop_iters:
                 raise LoopGuard("no termination after %d loop iterations" % rec.loop_iters)
         b._verif_probe = probe
@@ -372,7 +374,8 @@ class Recorder:
                            hist={k: ([None if v is None else (_l(v) if k in ("u", "x") else _f(v)) for v in b.iteration_history.get(k)]
                                      if b.iteration_history.get(k) is not None else None)
                                  for k in ("u", "x", "yval", "fval", "fsd", "func_count", "mesh_size")},
-                           inv_u=_l(vt.inverse_transf(np.atleast_2d(b.u))) if getattr(b, "u", None) is not None else None)
+                           inv_u=_l(vt.inverse_transf(np.atleast_2d(b.u))) if getattr(b, "u", None) is not None else None,
+                           final_quantile=_f(b.options["final_quantile"]))
         # exact inverse images of every evaluated internal point (for the clamp/correspondence clauses)
         return tr
 
